@@ -282,6 +282,27 @@ CLAIMS: dict = {
         technique='contract-based deductive verification: flow equivalence of each export function with its contract '
                   'under query stubs (AST->VC symbolic execution, z3); bounded native export round trip',
         engines=['pyvc', 'bounded']),
+    'C07': dict(
+        category='proof',
+        text='For all resources and databases (symbolic execution of the real code): (1) frame - the log of stores into '
+             'any record of the caller\'s resource during _add_lexical_resource and all _insert_* functions is empty on '
+             'every path; (2) skip - every database write happens under `not skipmap[specifier(lexicon)]`; (3) the '
+             '_precheck contract - skip <=> a lexicons row with that id and version exists, or the lexicon extends a base '
+             'without such a row (SQL look-ups decided on their AST, equivalence by z3 over the SQL model), read-only; '
+             '(4) both entry points (_add_lmf for every file route, add_lexical_resource for the in-memory route) '
+             'run _precheck over the lexicons of the source, return early iff ALL are skipped and pass the loaded '
+             'resource and that skip map to the same _add_lexical_resource.',
+        note='Only bounded (labelled, not counted): wn.project.iterpackages (directory / tar / gz / xz dispatch, temp '
+             'files, _check_tar) and file-signature sniffing - exercised with real files for xml, gz, xz, package with '
+             'extra files, collection, tar/tar.gz/tar.xz of file/package/collection and the in-memory route x 3 LMF '
+             'versions: equal table dumps, second add changes nothing, inputs unchanged (hash / deep copy), extension '
+             'without base adds nothing, partially installed file. _collect_frames (abstract in (1)) has its frame '
+             'condition checked by the exhaustive small-scope stand-in. scan_lexicons == load on (id, version, extends) '
+             'is C20 (known finding K6). An extension in the same file as its base is skipped by the first add (base not '
+             'installed yet) - as the property states.',
+        technique='contract-based deductive verification: effect/frame log of the symbolically executed add code, SQL->FOL '
+                  'for _precheck, path-condition obligations for the entry points (z3); bounded route sweep on real files',
+        engines=['pyvc', 'sqlvc', 'bounded']),
 }
 
 # property -> reason (every property that is not claimed)
